@@ -60,13 +60,17 @@ func RunCheck(p *PropSpec, tier string, seed int64) int {
 			continue
 		}
 		nviol++
+		exit = 1
+		if nviol > 25 {
+			continue // listed in the summary count only
+		}
 		path := WriteReplay(v)
 		fmt.Printf("VIOLATION property=%s replay=%s\n", p.ID, path)
 		fmt.Printf("  kind=%s config=%s case=%s\n  %s\n", v.Kind, v.Config, OneLine(Short(v.Case, 300)), OneLine(Short(v.Detail, 600)))
 		exit = 1
 	}
-	if m.MoreViol > 0 {
-		fmt.Printf("  (+%d further violating cases not listed individually)\n", m.MoreViol)
+	if extra := m.MoreViol + int64(max(0, nviol-25)); extra > 0 {
+		fmt.Printf("  (+%d further violating cases not listed individually)\n", extra)
 	}
 
 	cov := map[string]any{}
